@@ -41,6 +41,8 @@ type mcase struct {
 	// NilPerm: a permutation without entries is handed over as a nil map (what a job without the field,
 	// or with `null`, decodes to) instead of an empty one
 	NilPerm bool `json:"nil_perm,omitempty"`
+	// Second: what happens to the matrix between an accepted call and the second call on the same step
+	Second int `json:"second,omitempty"`
 }
 
 func truthy(s any) bool {
@@ -251,8 +253,38 @@ func check(c mcase) (nontrivial bool, skipped bool, err error) {
 			return false, false, fmt.Errorf("rejected permutation changed the marshalled step:\n%s\n%s", bj, aj)
 		}
 	}
-	if len(perm) != len(c.Perm) {
+	if len(perm) != len(c.Perm) && !(c.NilPerm && len(c.Perm) == 0) {
 		return false, false, fmt.Errorf("permutation argument was modified")
+	}
+	// the verdict belongs to the matrix the step has NOW: after an accepted call the same step, asked
+	// again about the same permutation, must say no once its matrix forbids it - the matrix gone (a
+	// non-empty permutation for a step without a matrix), or an adjustment added that skips the tuple
+	if want && len(perm) > 0 && step.Matrix != nil {
+		if c.Second == 0 {
+			step.Matrix = nil
+		} else {
+			w := pipeline.MatrixAdjustmentWith{}
+			for d, v := range perm {
+				w[d] = v
+			}
+			step.Matrix.Adjustments = append(step.Matrix.Adjustments, &pipeline.MatrixAdjustment{With: w, Skip: "withdrawn"})
+		}
+		var again error
+		func() {
+			defer func() {
+				if r := recover(); r != nil {
+					again = nil
+					err = fmt.Errorf("PANIC on the second call: %v", r)
+				}
+			}()
+			again = step.InterpolateMatrixPermutation(perm)
+		}()
+		if err != nil {
+			return false, false, err
+		}
+		if again == nil {
+			return false, false, fmt.Errorf("the permutation was accepted, then the step's matrix changed so that it is no longer allowed (second=%d: 0 = matrix removed, 1 = a skipping adjustment with this tuple added), and the same call on the same step still returns nil", c.Second)
+		}
 	}
 	// non-trivial: adjustment-only permutation, or matched by >= 2 adjustments with different skips, or malformed adjustment present
 	if !c.NilMatrix {
@@ -513,6 +545,7 @@ func genCase(t *rapid.T) mcase {
 		c.Perm = map[string]string{}
 	}
 	c.NilPerm = len(c.Perm) == 0 && rapid.Bool().Draw(t, "nilperm")
+	c.Second = rapid.IntRange(0, 1).Draw(t, "second")
 	return c
 }
 
